@@ -1,0 +1,14 @@
+//go:build verif
+
+package verifhooks
+
+import (
+	"github.com/atlassian/gostatsd/internal/flush"
+)
+
+// VerifNewFlushCoordinator re-exports internal/flush.NewFlushCoordinator: the coordinator a
+// forwarder is given when flushes are requested manually (Flush / WaitForFlush) instead of by
+// the consolidator's own ticker.
+func VerifNewFlushCoordinator() flush.Coordinator {
+	return flush.NewFlushCoordinator()
+}
